@@ -189,3 +189,64 @@ pub fn queries_outside<T: El>(rng: &mut Rng, x: &[T], spans: f64, n_random: usiz
     q.retain(|v| v.as_f64().is_finite());
     q
 }
+
+/// strictly increasing axis whose steps are within a global ratio `max_ratio` of each other;
+/// `grid_bits` > 0 puts every knot on the dyadic grid 2^-grid_bits (exactly representable)
+pub fn axis_mesh(rng: &mut Rng, n: usize, max_ratio: f64, grid_bits: u32) -> Vec<f64> {
+    let mut x = Vec::with_capacity(n);
+    if grid_bits > 0 {
+        let g = (1u64 << grid_bits) as f64;
+        let mut k: i64 = rng.range(-300, 300);
+        let unit = rng.range(1, 4);
+        for _ in 0..n {
+            x.push(k as f64 / g);
+            k += unit * rng.range(1, max_ratio as i64);
+        }
+    } else {
+        let base = *rng.pick(&[1e-3, 0.1, 1.0, 7.3, 1e3]);
+        let mut v = rng.uniform(-20.0, 20.0) * base;
+        for _ in 0..n {
+            x.push(v);
+            v += base * rng.uniform(1.0, max_ratio);
+        }
+    }
+    x
+}
+
+/// cubic with small dyadic coefficients evaluated exactly on a dyadic grid.
+/// Returns coefficient numerators a_j (coefficient = a_j / 2^cbits).
+pub struct DyPoly {
+    pub a: [i64; 4],
+    pub cbits: u32,
+}
+
+impl DyPoly {
+    pub fn random(rng: &mut Rng, degree: usize, amax: i64, cbits: u32) -> Self {
+        let mut a = [0i64; 4];
+        for (j, c) in a.iter_mut().enumerate() {
+            if j <= degree {
+                *c = rng.range(-amax, amax);
+            }
+        }
+        if a[degree] == 0 {
+            a[degree] = 1;
+        }
+        DyPoly { a, cbits }
+    }
+    pub fn coef(&self, j: usize) -> f64 {
+        self.a[j] as f64 / (1u64 << self.cbits) as f64
+    }
+    /// exact for grid points k/2^g as long as the numerators stay below 2^53 (checked)
+    pub fn eval(&self, x: f64) -> f64 {
+        // Horner in f64 is exact here because every intermediate is a dyadic rational with few bits;
+        // the TLA+ side re-verifies data = p(x) exactly, so an inexact evaluation is caught as a tool error.
+        let c: Vec<f64> = (0..4).map(|j| self.coef(j)).collect();
+        c[0] + x * c[1] + x * x * c[2] + x * x * x * c[3]
+    }
+    pub fn d1(&self, x: f64) -> f64 {
+        self.coef(1) + 2.0 * self.coef(2) * x + 3.0 * self.coef(3) * x * x
+    }
+    pub fn d2(&self, x: f64) -> f64 {
+        2.0 * self.coef(2) + 6.0 * self.coef(3) * x
+    }
+}
